@@ -154,8 +154,9 @@ type bDown struct {
 }
 
 type remoteUp struct {
-	Info message.UpstreamInfo
-	Seq  uint32
+	Info  message.UpstreamInfo
+	Seq   uint32
+	Ended bool // the broker has told the downstream that this upstream ended: no further chunks from it
 }
 
 type bCall struct {
@@ -207,22 +208,24 @@ type pend struct {
 }
 
 type Broker struct {
-	s         *Sim
-	Cfg       BrokerCfg
-	Conns     []*bConn
-	Ups       []*bUp
-	Downs     []*bDown
-	Calls     []*bCall
-	Metas     []*bMeta
-	Remotes   []*remoteUp
-	Pend      []*pend
-	order     int
-	pendID    int
-	Tokens    []string
-	Unknown   []string                  // frames the broker could not attribute
-	DownCalls []*message.DownstreamCall // calls/replies emitted to the client
-	curSentAt time.Duration
-	OnEmit    func(m message.Message) // every non-ack reply the broker emits
+	// BadUpAlias, if not 0, is the alias the next "bad alias" chunk uses (instead of a far-away number)
+	BadUpAlias uint32
+	s          *Sim
+	Cfg        BrokerCfg
+	Conns      []*bConn
+	Ups        []*bUp
+	Downs      []*bDown
+	Calls      []*bCall
+	Metas      []*bMeta
+	Remotes    []*remoteUp
+	Pend       []*pend
+	order      int
+	pendID     int
+	Tokens     []string
+	Unknown    []string                  // frames the broker could not attribute
+	DownCalls  []*message.DownstreamCall // calls/replies emitted to the client
+	curSentAt  time.Duration
+	OnEmit     func(m message.Message) // every non-ack reply the broker emits
 }
 
 func newBroker(s *Sim, cfg BrokerCfg) *Broker {
@@ -748,6 +751,9 @@ func (b *Broker) EmitChunk(d *bDown, r *remoteUp, groups []sentGroup, upFull boo
 	}
 	if bad && upFull {
 		sc.UpAlias = 0xFFFF0000 + uint32(sc.Order)
+		if b.BadUpAlias != 0 {
+			sc.UpAlias, b.BadUpAlias = b.BadUpAlias, 0
+		}
 		msg.UpstreamOrAlias = message.UpstreamAlias(sc.UpAlias)
 	}
 	for gi := range groups {
@@ -811,6 +817,21 @@ func (b *Broker) EmitMetadata(d *bDown, source, name string, reqID uint32) *sent
 	d.link.push(&message.DownstreamMetadata{RequestID: message.RequestID(reqID), StreamIDAlias: d.Alias, SourceNodeID: source,
 		Metadata:        &message.BaseTime{SessionID: "s", Name: name, Priority: 1, ElapsedTime: time.Second, BaseTime: time.Unix(1_700_000_000, 0).UTC()},
 		ExtensionFields: &message.DownstreamMetadataExtensionFields{}})
+	return sm
+}
+
+// EmitUpstreamClosedMetadata tells the downstream that remote upstream r has ended normally (the
+// broker sends it after the last chunk of that upstream).
+func (b *Broker) EmitUpstreamClosedMetadata(d *bDown, r *remoteUp, reqID uint32) *sentMeta {
+	if d.link == nil || !d.link.Alive() {
+		return nil
+	}
+	sm := &sentMeta{Order: b.next(), Link: d.link.ID, ReqID: reqID, Source: r.Info.SourceNodeID, Name: "upstream-closed:" + r.Info.SessionID}
+	d.Metas = append(d.Metas, sm)
+	d.link.push(&message.DownstreamMetadata{RequestID: message.RequestID(reqID), StreamIDAlias: d.Alias, SourceNodeID: r.Info.SourceNodeID,
+		Metadata:        &message.UpstreamNormalClose{StreamID: r.Info.StreamID, SessionID: r.Info.SessionID, TotalDataPoints: 1, FinalSequenceNumber: r.Seq},
+		ExtensionFields: &message.DownstreamMetadataExtensionFields{}})
+	r.Ended = true
 	return sm
 }
 
